@@ -1,7 +1,7 @@
 (* Properties_C08.v -- C08: nothing stale behind the terminator
    Only theorem statements, each closed by [exact <lemma>], with Print Assumptions beneath. *)
 From Coq Require Import List ZArith Lia Bool.
-From SC Require Import Base Wp Cfg Comb CombProofs CopySpec ModStr ModMem ModExt ProofsStr ProofsMem SpecStr SpecMem SpecExt PropStr FnProps PropDefs.
+From SC Require Import Base Wp Cfg Comb CombProofs CopySpec ModStr ModMem ModExt ProofsStr ProofsMem SpecStr SpecMem SpecExt SpecExt2 PropStr FnProps PropDefs.
 From SC.Gen Require Import Consts.
 Import ListNotations.
 Local Open Scope Z_scope.
@@ -35,6 +35,14 @@ Theorem C08_strncat_s : forall (c : cfg) (d dmax s slen destbos srcbos : Z) (m :
 Proof. exact strncat_s_C08. Qed.
 Print Assumptions C08_strncat_s.
 
+Theorem C08_strset_s : forall c d dmax value m, d <> 0 -> 1 <= dmax <= rmax_str c -> 0 <= value <= 255 ->
+  wp (strset_s c d dmax value BOS_UNKNOWN) m (set_post c d dmax dmax value m).
+Proof. exact strset_s_spec. Qed.
+Print Assumptions C08_strset_s.
+Theorem C08_strnset_s : forall c d dmax value n m, d <> 0 -> 1 <= dmax <= rmax_str c -> 0 <= value <= 255 -> 0 <= n <= dmax ->
+  wp (strnset_s c d dmax value n BOS_UNKNOWN) m (set_post c d dmax n value m).
+Proof. exact strnset_s_spec. Qed.
+Print Assumptions C08_strnset_s.
 
 Theorem C08_cfg_repo_wf : wf_cfg cfg_repo.
 Proof. exact wf_cfg_repo. Qed.
